@@ -291,15 +291,18 @@ theorem accept_ldProof (L : LdEnv) (key : Key) (canon : Bool) (parts : Nat) (dec
   obtain ⟨alg, hv, hka, hver, hparts⟩ := ldProof_accept h
   exact ⟨_, hv, rfl, rfl, hka, allowed_lists_asymmetric.2.2.2 _ (hderive _ _ hka), hver, hparts⟩
 
-/-- VC / VP with a JSON-LD proof (signature_verifier.jsonldProof): the one verification is made with the key the resolver
+/-- VC / VP with a JSON-LD proof (signature_verifier.jsonldProof): `proof` is a single object (a proof SET — an array, of any
+    length — is refused: exactly one signature), the one verification is made with the key the resolver
     returns for the proof's verificationMethod, and that verificationMethod is a DID URL of exactly the issuer's DID -/
-theorem accept_vcJsonLd (E : Env) (L : LdEnv) (issuer vm : String) (didOf : String → String) (va canon : Bool) (parts : Nat)
+theorem accept_vcJsonLd (E : Env) (L : LdEnv) (po : Bool) (issuer vm : String) (didOf : String → String) (va canon : Bool) (parts : Nat)
     (dec : Bool) (vs : List Verified)
     (hderive : ∀ k a, L.keyAlg k = some a → a ∈ Facts.C17.keyDerivedAlgs)
-    (h : vcJsonLdProof E L issuer vm didOf va canon parts dec = .accept vs) :
-    didOf vm = issuer ∧ ∃ k v, E.resolve vm = some k ∧ vs = [v] ∧ v.key = k ∧ L.keyAlg k = some v.alg ∧
+    (h : vcJsonLdProof E L po issuer vm didOf va canon parts dec = .accept vs) :
+    po = true ∧ didOf vm = issuer ∧ ∃ k v, E.resolve vm = some k ∧ vs = [v] ∧ v.key = k ∧ L.keyAlg k = some v.alg ∧
       v.alg ∉ symmetricOrNone ∧ L.verifiesDetached k v.alg = true := by
   unfold vcJsonLdProof at h
+  split at h; · cases h
+  next hpo =>
   split at h; · cases h
   split at h; · cases h
   next hiss =>
@@ -308,10 +311,12 @@ theorem accept_vcJsonLd (E : Env) (L : LdEnv) (issuer vm : String) (didOf : Stri
   next k hk =>
   obtain ⟨v, hv, hkey, _, hka, hasym, hver, _⟩ := accept_ldProof L k canon parts dec vs hderive h
   simp only [Bool.or_eq_true, decide_eq_true_eq, not_or, Decidable.not_not] at hiss
-  exact ⟨hiss.2, k, v, hk, hv, hkey, hka, hasym, hver⟩
+  exact ⟨by simpa using hpo, hiss.2, k, v, hk, hv, hkey, hka, hasym, hver⟩
 
 /-- jsonldProof's error exits, verbatim -/
 theorem fact_vcJsonLd :
+    "err = signedDocument.UnmarshalProofValue(&ldProof); err != nil" ∈ Facts.C17.vcJsonLdErrConds ∧
+    Facts.C17.vcJsonLdProofAssignments = [] ∧
     "verificationMethod == \"\"" ∈ Facts.C17.vcJsonLdErrConds ∧
     "verificationMethodIssuer == \"\" || verificationMethodIssuer != issuer" ∈ Facts.C17.vcJsonLdErrConds ∧
     "!ldProof.ValidAt(validAt, maxSkew)" ∈ Facts.C17.vcJsonLdErrConds ∧
